@@ -73,6 +73,8 @@ type world struct {
 	known map[string]string // content bytes -> name
 	wg    sync.WaitGroup
 	srcs  []*GatedReader
+	busyMu sync.Mutex
+	busy  map[string]bool
 }
 
 func (w *world) content(k string) []byte {
@@ -123,7 +125,7 @@ func newWorld(cfg Config, keys map[string]KeyDef, coop bool, seed int64, gates [
 		return true
 	}
 	log := &Log{W: tw}
-	w := &world{sc: sc, log: log, keys: keys, known: map[string]string{}}
+	w := &world{sc: sc, log: log, keys: keys, known: map[string]string{}, busy: map[string]bool{}}
 	w.st = New(cfg, log, sc)
 	for k := range keys {
 		if prev, dup := w.known[string(w.content(k))]; dup {
@@ -156,11 +158,23 @@ func installYield(w *world) {
 }
 
 // start launches the operation of a script step as a logical process.
-func (w *world) start(s Step) {
+func (w *world) start(s Step) bool {
+	w.busyMu.Lock()
+	if w.busy[s.P] {
+		w.busyMu.Unlock()
+		return false // the process has not finished its previous operation on this code base
+	}
+	w.busy[s.P] = true
+	w.busyMu.Unlock()
 	ctx := sched.WithProc(context.Background(), s.P)
 	w.wg.Add(1)
 	go func() {
 		defer w.wg.Done()
+		defer func() {
+			w.busyMu.Lock()
+			w.busy[s.P] = false
+			w.busyMu.Unlock()
+		}()
 		defer func() {
 			if r := recover(); r != nil {
 				w.log.Emit(map[string]any{"ev": "Panic", "p": s.P, "msg": fmt.Sprint(r)})
@@ -179,6 +193,7 @@ func (w *world) start(s Step) {
 			panic("unknown op " + s.Op)
 		}
 	}()
+	return true
 }
 
 func (w *world) doPut(ctx context.Context, s Step) {
@@ -243,7 +258,11 @@ func (w *world) doGet(ctx context.Context, s Step) {
 	w.log.Emit(map[string]any{"ev": "GetStart", "p": s.P, "k": s.K, "inst": comps(s.Inst)})
 	b := w.st.Access.Get(ctx, d)
 	if s.Hold {
-		w.sc.Gate("consume:" + s.P)
+		// Only a buffer that carries data is held open; an error (NotFound,
+		// failed refresh allocation) is known to the caller at once.
+		if _, err := b.GetSizeBytes(); err == nil {
+			w.sc.Gate("consume:" + s.P)
+		}
 	}
 	kind, what, msg := w.readResult(b)
 	w.log.Emit(map[string]any{"ev": "GetEnd", "p": s.P, "k": s.K, "inst": comps(s.Inst), "kind": kind, "what": what, "msg": msg})
@@ -402,7 +421,9 @@ func runScript(t *testing.T, sc *Script, tw *hx.Writer) runStats {
 			switch s.Do {
 			case "start":
 				w.log.SetCur(s.P)
-				w.start(s)
+				if !w.start(s) {
+					rs.Infeasible++
+				}
 				w.sc.Settle()
 			case "rel":
 				if parts := strings.SplitN(s.L, ":", 3); len(parts) >= 2 {
@@ -442,7 +463,7 @@ func runScript(t *testing.T, sc *Script, tw *hx.Writer) runStats {
 					if rs.FirstDrift == nil {
 						rs.FirstDrift = map[string]any{"script": sc.ID, "step": si, "want": want, "got": got}
 					}
-					tw.Emit(map[string]any{"ev": "Note", "drift": true, "step": si, "want": want, "got": got})
+					tw.Emit(map[string]any{"ev": "Note", "drift": true, "step": si, "want": strings.Join(want, ";"), "got": strings.Join(got, ";")})
 				}
 			}
 		}
